@@ -38,7 +38,7 @@ def is_one(t):
 def run(ctx):
     ctx.explanation = ("per-type step tables of increment/decrement (incl. the char surrogate gap), one-step tables of the five range "
                        "iterators with the step result opaque, forward/reverse isomorphism, MIN/MAX constants, into_iter field mapping")
-    for cfg in (["FULL"] if ctx.tier == "quick" else ["FULL", "MIN"]):
+    for cfg in (["FULL"] if ctx.tier == "quick" else ["FULL", "DEBUG"]):
         prog = ctx.program(cfg)
         steps(ctx, prog)
         iters(ctx, prog)
